@@ -34,6 +34,7 @@ func runC01(c *core.Ctx) {
 	c01ClientVerify(c)
 	c01ServerDigestGate(c)
 	c01Immutability(c)
+	serverRangeDispatch(c, "C01.R6")
 }
 
 // blobLiteralField: the value stored into field name of the *blob literal v.
